@@ -172,7 +172,12 @@ def shared_letter_descs(draw):
     l1 = draw(st.sampled_from(cl))
     l2 = draw(st.sampled_from([l for l in cl if l != l1]))
     zs = sorted(draw(st.lists(st.sampled_from(SPECIES), min_size=3, max_size=3, unique=True)))
-    roles = draw(st.permutations([(l1, zs[0]), (l1, zs[2]), (l2, zs[1])]))
+    if draw(st.booleans()):
+        roles = draw(st.permutations([(l1, zs[0]), (l1, zs[2]), (l2, zs[1])]))
+    else:
+        # ONE element spread unequally over the two letters (two orbits on l1, one on l2): the normal form has to pick the
+        # description with the larger count on the earlier letter
+        roles = draw(st.permutations([(l1, zs[1]), (l1, zs[1]), (l2, zs[1])]))
     if draw(st.booleans()):
         roles = list(roles) + [(letters(sg)[-1], draw(st.sampled_from(SPECIES)))]
     orbits = []
